@@ -120,8 +120,17 @@ def ethtx_binding(v, pid, w, focus, sz, seed, corrupt_fn=None, tag=""):
     first = lines[a:b + 1]
     if corrupt_fn is None:
         return cov_total, first
-    # binding self-test on the first trace
-    bad, at = corrupt_fn(pid, first)
+    # binding self-test on the first trace that has something to corrupt
+    bad, at, pos = None, 0, 0
+    while pos < len(lines) and bad is None:
+        a2, b2 = vlib.trace_of_line(lines, pos + 1)
+        try:
+            bad, at = corrupt_fn(pid, lines[a2:b2 + 1])
+        except Infra:
+            bad = None
+        pos = b2 + 1
+    if bad is None:
+        raise Infra("self-test: nothing to corrupt in any trace")
     ds = w.sub("selftest" + tag)
     with open(os.path.join(ds, "trace.ndjson"), "w") as f:
         f.write("\n".join(bad) + "\n")
